@@ -50,6 +50,8 @@
 //!              crate that are not in the manifest are located and translated into the caller's group);
 //!              `Option::is_some_and(|x| e)`, `map_or(d, |x| e)`, `unwrap_or(v)`, `uN::leading_zeros/trailing_zeros`,
 //!              `for x in v.iter_mut()` / `for (i, x) in v.iter_mut().enumerate()` (≡ index loop with `x` an alias of `v[i]`)
+//!   stage 4    `VecDeque` (list; `push_back`, `pop_front`), `while let PAT = e` (fuelled), `&mut uN` parameters (threaded),
+//!              `Bytes::slice(a..b)`, `uN::div_ceil`, `octets::varint_len`
 //!   not supported: `loop`, labelled loops, `break`/`continue` in `for`, closures, generics, traits, signed integers, floats,
 //!              references stored in data, `&mut` parameters other than `self` and the octets cursors,
 //!              `Err` returned from a `&mut self` method after `self` was mutated.
